@@ -45,7 +45,7 @@ T = {
         "kernel tap (stand-in kernels log every (z,value)) judged at call time against the tempered formula",
         "Every value the kernel receives during real SMC/MCMC runs is compared at call time with (1-b)log q + b(log L+log pi) + log|det dx/dz| where the "
         "determinant is obtained by differentiating the transform's inverse map as a black box; -inf outside the prior; NaN -> -inf in SMC.",
-        "Stand-in kernels; BlackJAX nuts/hmc never executed.",
+        "Stand-in kernels (the nuts / hmc branches of the BlackJAX front-end run against gradient-free stand-ins; the real integrators are out of reach).",
     ),
     "C06": (
         "exploration",
